@@ -273,6 +273,75 @@ theorem sanitizeUint_pos (b : Bytes) (n : Nat) (h : sanitizeUint b n = .posOverf
           omega
     · rw [if_neg h2] at h; cases h
 
+/-! ### uniqueness of the canonical form -/
+
+theorem be_beVal (b : Bytes) (hb : isBytes b) : be b.length (beVal b) = b := by
+  induction b with
+  | nil => simp
+  | cons x t ih =>
+    have hx : x < 256 := hb x (by simp)
+    have ht : isBytes t := fun y hy => hb y (by simp [hy])
+    have hlt := beVal_lt t ht
+    rw [List.length_cons, be_succ, beVal_cons]
+    congr 1
+    · rw [Nat.add_comm, Nat.add_mul_div_right _ _ (Nat.pow_pos (by decide)), Nat.div_eq_of_lt hlt]
+      simp; omega
+    · -- lower bytes are those of `beVal t`
+      have : be t.length (x * 256 ^ t.length + beVal t) = be t.length (beVal t) := by
+        simp only [be]
+        apply List.map_congr_left
+        intro i hi
+        simp at hi
+        have h1 : 256 ^ t.length = 256 ^ i * 256 ^ (t.length - i) := by rw [← Nat.pow_add]; congr 1; omega
+        have h2 : 256 ^ (t.length - i) = 256 * 256 ^ (t.length - i - 1) := by rw [← Nat.pow_succ']; congr 1; omega
+        rw [h1, h2]
+        have : x * (256 ^ i * (256 * 256 ^ (t.length - i - 1))) = 256 ^ i * (256 * (x * 256 ^ (t.length - i - 1))) := by
+          simp [Nat.mul_left_comm]
+        rw [this, Nat.add_comm, Nat.add_mul_div_left _ _ (Nat.pow_pos (by decide)), Nat.add_mul_mod_self_left]
+      rw [this, ih ht]
+
+
+/-- The canonical form is unique: a non-negative byte string with no redundant leading byte whose
+value is `v < 2^64` *is* `canonNat v`. -/
+theorem canon_unique (b : Bytes) (v : Nat) (hb : isBytes b) (hneg : headGe128 b = false) (hmin : Minimal b)
+    (hv : beVal b = v) (h64 : v < 2^64) : b = canonNat v := by
+  suffices hl : byteLen v = b.length by rw [canonNat, hl, ← hv, be_beVal b hb]
+  rw [byteLen_cases v h64, ← hv]
+  rw [← hv] at h64
+  match b, hb, hneg, hmin, h64 with
+  | [], _, _, _, _ => simp [beVal]
+  | [x], hb, hneg, hmin, h64 =>
+    simp [headGe128, Minimal, beVal] at *; ladder
+  | x :: y :: t, hb, hneg, hmin, h64 =>
+    have hx : x < 256 := hb x (by simp)
+    have hy : y < 256 := hb y (by simp)
+    have ht : isBytes t := fun z hz => hb z (by simp [hz])
+    have hlt := beVal_lt t ht
+    simp only [headGe128, decide_eq_false_iff_not, Nat.not_le, Minimal] at hneg hmin
+    have hval : beVal (x :: y :: t) = (x * 256 + y) * 256 ^ t.length + beVal t := by
+      rw [beVal_cons, beVal_cons]; simp [Nat.pow_succ, Nat.add_mul, Nat.mul_assoc]
+      rw [Nat.mul_comm (256 ^ t.length) 256]; omega
+    rw [hval] at h64 ⊢
+    have hlen : t.length ≤ 7 := by
+      rcases Nat.lt_or_ge t.length 8 with h | h
+      · omega
+      · exfalso
+        have : 256 ^ 8 ≤ 256 ^ t.length := Nat.pow_le_pow_right (by decide) h
+        have h2 : 128 * 256 ^ t.length ≤ (x * 256 + y) * 256 ^ t.length := Nat.mul_le_mul_right _ (by omega)
+        omega
+    have hxy : 128 ≤ x * 256 + y ∧ x * 256 + y < 128 * 256 := by omega
+    generalize x * 256 + y = w at *
+    generalize hbt : beVal t = r at *
+    simp only [List.length_cons]
+    have : t.length = 0 ∨ t.length = 1 ∨ t.length = 2 ∨ t.length = 3 ∨ t.length = 4 ∨ t.length = 5 ∨ t.length = 6 ∨ t.length = 7 := by omega
+    rcases this with h | h | h | h | h | h | h | h <;> rw [h] at hlt h64 ⊢ <;> simp only [Nat.reducePow, Nat.pow_zero, Nat.mul_one] at hlt h64 ⊢ <;> ladder
+
+
+/-- every u64 atom `sanitize_uint` accepts is *the* canonical encoding of the value it returns -/
+theorem sanitizeUint_canon (b : Bytes) (v : Nat) (hb : isBytes b) (h : sanitizeUint b 8 = .ok v) : b = canonNat v := by
+  obtain ⟨h1, h2, h3, h4⟩ := sanitizeUint_ok b 8 v hb h
+  exact canon_unique b v hb h2 h3 h1 (by simpa using h4)
+
 /-! ### `encode_number` / `decode_number` (clvm-traits) -/
 
 theorem skipPad_suffix (pad : Nat) (s : Bytes) : ∃ k, s = List.replicate k pad ++ skipPad pad s ∧
